@@ -21,7 +21,7 @@ TRUSTED_BASE = L.TRUSTED_COMMON
 PROFILE = L.profile(without=['clear', 'rawupdate', 'rawdelete', 'unpickle'],
                     weights={'setattr': 18, 'set': 14, 'syncupdate': 8, 'sync': 5, 'expire': 4, 'select': 8, 'pickle': 4, 'destroy': 3,
                              'read': 8, 'create': 8},
-                    kinds=[1, 1, 1, 0], p_fault=0.03, motifs=[L.motif_lazy_refetch], p_motif=0.06)
+                    kinds=[1, 1, 1, 0], p_fault=0.03, motifs=[L.motif_lazy_refetch, L.motif_lazy_expire], p_motif=0.06)
 FLUSHES = ('syncupdate', 'sync', 'pickle')
 
 
